@@ -5,3 +5,5 @@ import ThunderProofs.Properties.C10
 #print axioms TM.Properties.C10.representation_irrelevant
 #print axioms TM.Properties.C10.old_loses_int_vs_int64
 #print axioms TM.Properties.C10.old_nil_depends_on_companions
+#print axioms TM.Properties.C10.call_batched_eq_alone
+#print axioms TM.Properties.C10.late_validation_fails_siblings
